@@ -240,6 +240,21 @@ FMT_EXT = {"config": "sdkconfig", "header": "sdkconfig.h", "cmake": "sdkconfig.c
            "json_menus": "menus.json", "savedefconfig": "sdkconfig.min", "docs": "kconfig.inc", "report": "report.json"}
 
 
+def _regen_raised(ctx, sc, gi, g, e):
+    """A generator that raises.  In general that is not C13's subject (the run is cut and counted).  One case is: the
+    previous generation of the *same* configuration succeeded, so the only new ingredient is the existing output that the
+    compare-before-write step has to read - the regeneration of an unchanged configuration failed on its own output."""
+    import traceback
+
+    fn = traceback.extract_tb(e.__traceback__)[-1].name
+    if gi > 0 and not g:
+        ctx.violate(f"C13/regenerate-raised/{sc['via']}/{type(e).__name__}",
+                    f"generation {gi} repeats the configuration of generation {gi - 1}, which succeeded, but raised {type(e).__name__} in {fn}: {e}")
+    else:
+        ctx.counters["op_raised:%s/%s" % (sc["via"], type(e).__name__)] += 1
+    ctx.ev("regen-raised", gi, type(e).__name__)
+
+
 def _regen(sc, ctx, sb, kpath, rn):
     fs = simfs.SimFS(sb, chunk=sc["chunk"])
     out = os.path.join(sb, "out")
@@ -260,11 +275,15 @@ def _regen(sc, ctx, sb, kpath, rn):
             _apply(k, cum)
             dests = {"config": os.path.join(out, "sdkconfig"), "header": os.path.join(out, "autoconf.h"),
                      "min": os.path.join(out, "defconfig"), "auto.conf": os.path.join(out, "deps", "auto.conf")}
-            with simfs.Installed(fs, _mods()), simproc.quiet():
-                k.write_config(dests["config"], header=HEADER, write_deprecated=sc["deprecated"])
-                k.write_autoconf(dests["header"], header="/* h */\n", write_deprecated=sc["deprecated"])
-                k.write_min_config(dests["min"], labels=sc["labels"])
-                k.sync_deps(os.path.join(out, "deps"))
+            try:
+                with simfs.Installed(fs, _mods()), simproc.quiet():
+                    k.write_config(dests["config"], header=HEADER, write_deprecated=sc["deprecated"])
+                    k.write_autoconf(dests["header"], header="/* h */\n", write_deprecated=sc["deprecated"])
+                    k.write_min_config(dests["min"], labels=sc["labels"])
+                    k.sync_deps(os.path.join(out, "deps"))
+            except Exception as e:  # noqa: B902
+                _regen_raised(ctx, sc, gi, g, e)
+                return
             expect = {"config": k._config_contents(HEADER, write_deprecated=sc["deprecated"]),
                       "header": k._autoconf_contents("/* h */\n", write_deprecated=sc["deprecated"]),
                       "min": k._min_config_contents(None, labels=sc["labels"]), "auto.conf": k._old_vals_contents()}
@@ -292,9 +311,7 @@ def _regen(sc, ctx, sb, kpath, rn):
                 try:
                     kg.main.main(args=args, standalone_mode=False)
                 except (SystemExit, Exception) as e:
-                    # an exception escaping kconfgen is not C13's subject: cut the run, count it
-                    ctx.counters["op_raised:kconfgen/" + type(e).__name__] += 1
-                    ctx.ev("kconfgen-raised", type(e).__name__)
+                    _regen_raised(ctx, sc, gi, g, e)
                     simproc.scrub_env()
                     return
             simproc.scrub_env()
